@@ -132,4 +132,21 @@ def jobs(tier, seed):
     return [dict(h="C14.codec", p=p) for p in out]
 
 
+def sym_step(E, p, kf):
+    """canonical form of stepped slices (the C15 slice harness: decoded content + canonical events/values, adjacent values distinct)"""
+    from . import c15
+    return c15.sym(E, p, kf)
+
+
+def conc_step(case):
+    from . import c15
+    return c15.conc(case)
+
+
+def jobs_step(tier, seed):
+    q = tier == "quick"
+    return [dict(h="C14.stepslice", p=dict(ix="slice", n=4 if q else 5, s=s)) for s in ((2, -2, 3) if q else (2, -2, 3, -3))]
+
+
 harness("C14.codec", jobs, sym, conc)
+harness("C14.stepslice", jobs_step, sym_step, conc_step)
